@@ -88,6 +88,9 @@ type SASLConfig struct {
 	// "" none, "handshake-error", "bad-server-first", "bad-server-final", "close-after-handshake",
 	// "close-mid", "auth-error"
 	Sabotage string
+	// AuthErrorCode: the error code of a rejected SaslAuthenticate ("auth-error"
+	// sabotage); 0 means SASL_AUTHENTICATION_FAILED (58)
+	AuthErrorCode int16
 	// RawReply, when set, replaces the broker's answer to a raw (handshake v0)
 	// token: the bytes to deliver, and whether the broker closes afterwards.
 	RawReply func(tokLen int) (frame []byte, closeAfter bool)
@@ -280,7 +283,11 @@ func (c *Cluster) saslAuthenticate(b *Broker, cn *Conn, st *connState, r *Req) r
 		c.S.Count("fault:sasl-auth-error")
 		c.SASL.Rejected = append(c.SASL.Rejected, "c"+strconv.Itoa(cn.ID))
 		c.S.After(c.N.latency()*3, fmt.Sprintf("c%d:sasl-close", cn.ID), func() { cn.ServerClose() })
-		return rc.Msg{"error_code": ErrSASLAuthenticationFailed, "error_message": "injected", "auth_bytes": []byte{}, "session_lifetime_ms": int64(0)}
+		code := ErrSASLAuthenticationFailed
+		if c.SASL.AuthErrorCode != 0 {
+			code = c.SASL.AuthErrorCode
+		}
+		return rc.Msg{"error_code": code, "error_message": "injected", "auth_bytes": []byte{}, "session_lifetime_ms": int64(0)}
 	}
 	out, done, fail := c.saslStep(cn, st, r.Body.Bytes("auth_bytes"))
 	if fail != "" {
